@@ -378,7 +378,8 @@ def w_words(items):
         for lo in range(0, len(words), 12):
             batch = words[lo:lo + 12]
             for order in (batch, batch[::-1]):
-                parents = [realise(unit, element, w, rules) for w in order]
+                # (the reversed pass builds every child of every parent with one explicit id: ids are the caller's business)
+                parents = [realise(unit, element, w, rules, same_id=None if order is batch else "same-id") for w in order]
                 raised, by = forest_errors(parents)
                 Node.store.clear()
                 if raised is not None:
